@@ -841,7 +841,46 @@ func (in *Interp) builtin(st *State, name string, args []Value, retTo ssa.Value,
 				st.setCell(a.Obj, MapData{})
 			}
 			return nil
+		case Slice:
+			if a.Len > 0 {
+				arr := st.arr(a)
+				e := append([]Value(nil), arr.E...)
+				var z Value = in.tf.ConstU(8, 0)
+				if t, ok := e[a.Off].(*Term); ok {
+					z = in.tf.ConstU(t.W, 0)
+				} else {
+					panic(endPath{kind: "unsupported", msg: "clear of a non-scalar slice", pos: pos})
+				}
+				for i := 0; i < a.Len; i++ {
+					e[a.Off+i] = z
+				}
+				st.setArr(a, Array{E: e})
+			}
+			return nil
 		}
+	case "SliceData", "StringData":
+		a := args[0].(Slice)
+		if a.Obj < 0 {
+			return nilPtr
+		}
+		return Ptr{Obj: a.Obj, Path: append(append([]int(nil), a.Path...), a.Off)}
+	case "String", "Slice":
+		p, ok := args[0].(Ptr)
+		n := int(in.concretize(st, in.termOf(args[1], "unsafe."+name), "unsafe."+name))
+		if !ok {
+			break
+		}
+		if p.IsNil() || n == 0 {
+			if name == "String" {
+				return Slice{Obj: -1, Str: true}
+			}
+			return Slice{Obj: -1, Nil: p.IsNil()}
+		}
+		if len(p.Path) == 0 || p.Sym != nil {
+			break
+		}
+		off := p.Path[len(p.Path)-1]
+		return Slice{Obj: p.Obj, Path: append([]int(nil), p.Path[:len(p.Path)-1]...), Off: off, Len: n, Cap: n, Str: name == "String"}
 	case "print", "println":
 		return nil
 	}
